@@ -133,7 +133,33 @@ def inline_new_helpers(modules, exits):
             t = T()
             for i, st in enumerate(t2.body):
                 t2.body[i] = t.visit(st)
-        # bare mentions that remain (passed as a value) keep the definition alive
+        # the helper passed as a value is the lambda with the same parameters and body (plain positional parameters only)
+        a_ = f.args
+        if kind in ("module", "nested") and not (a_.vararg or a_.kwarg or a_.kwonlyargs or a_.posonlyargs):
+            class V(ast.NodeTransformer):
+                def visit_Call(self, c):
+                    if isinstance(c.func, ast.Name) and c.func.id == bare:
+                        c.args = [self.visit(x) for x in c.args]
+                        c.keywords = [self.visit(x) for x in c.keywords]
+                        return c
+                    return self.generic_visit(c)
+
+                def visit_Name(self, n_):
+                    if n_.id == bare and isinstance(n_.ctx, ast.Load):
+                        replaced[0] += 1
+                        return ast.copy_location(ast.Lambda(args=copy.deepcopy(f.args), body=copy.deepcopy(expr)), n_)
+                    return n_
+
+                def visit_FunctionDef(self, d):
+                    return d if d is f else self.generic_visit(d)
+            for m2, t2 in modules.items():
+                if kind == "nested" and m2 != mod:
+                    continue
+                if kind == "module" and m2 != mod:
+                    continue
+                for i, st in enumerate(t2.body):
+                    t2.body[i] = V().visit(st)
+        # bare mentions that remain keep the definition alive
         left = sum(1 for t2 in modules.values() for n in ast.walk(t2) if (isinstance(n, ast.Name) and n.id == bare and isinstance(n.ctx, ast.Load)) or (kind != "nested" and isinstance(n, ast.Attribute) and n.attr == bare))
         if replaced[0] and not failed[0] and not left:
             _remove_def(modules[mod], f)
